@@ -527,8 +527,10 @@ impl<'a, R: RealNumberInternalTrait> Interpreter<'a, R> {
                     .imported_library
                     .insert(lib_name.clone().extract_data())
                 {
-                    let library = self.get_library(lib_name.clone())?;
+                    let library = self.get_library(lib_name.clone());
+                    // the library is no longer being imported, whether it loaded or failed
                     self.imported_library.remove(lib_name);
+                    let library = library?;
                     Ok(library
                         .iter_definitions()
                         .map(|(name, value)| (name.clone(), value.clone()))
